@@ -204,7 +204,7 @@ Section Frag.
      variable's type; a `new` is codata and each clause body has the kind its destructor returns; a
      destructor call has the kind its destructor returns and its scrutinee is codata *)
   Fixpoint kd (t : fterm) : bool :=
-    let arg_kd := fun (y : fterm) => match y with FVar _ _ (Some FCns) => true | _ => kd y end in
+    let arg_kd := fun (y : fterm) => match y with FVar _ ty (Some FCns) => negb (f_is_codata_o p ty) | _ => kd y end in
     let same := fun (u : fterm) (ty : option fty) => Bool.eqb (tkind u) (f_is_codata_o p ty) in
     match t with
     | FVar _ _ _ | FLit _ => true
@@ -221,7 +221,7 @@ Section Frag.
         kd scrut && negb (f_is_codata_o p ty)
         && forallb (fun c => match c with FClause _ _ _ _ body => kd body && negb (tkind body) end) cls
     | FLabel _ t' ty => kd t' && negb (tkind t') && negb (f_is_codata_o p ty)
-    | FGoto _ t' _ => kd t'
+    | FGoto _ t' _ => kd t' && negb (tkind t')
     | FExit a _ => kd a && negb (tkind a)
     | FParen t' => kd t'
     | FNew cls ty =>
@@ -230,7 +230,7 @@ Section Frag.
     | FDtor scrut x _ args ty =>
         kd scrut && tkind scrut && forallb arg_kd args && Bool.eqb (f_is_codata_o p ty) (dkind x)
     end.
-  Definition arg_kd (y : fterm) : bool := match y with FVar _ _ (Some FCns) => true | _ => kd y end.
+  Definition arg_kd (y : fterm) : bool := match y with FVar _ ty (Some FCns) => negb (f_is_codata_o p ty) | _ => kd y end.
 End Frag.
 
 
